@@ -8,13 +8,70 @@
  */
 #include "vh.h"
 #include "src/module.c"
-#define SET_MODEL_CLEANUP_FN module_cleanup
-#include "spec/set_model.h"
 #include <dlfcn.h>
 
+/* The module table through the set contract, instantiated for the key universe of this
+ * harness: names "m0".."m3" (set_compare_charp order == index order), so the sorted map is an
+ * array of slots.  Same observable behaviour as spec/set_model.h: find/insert(replace with
+ * disposal)/remove(with disposal)/first/next in key order, count. */
 #ifndef MODS
 #define MODS 3
 #endif
+static struct set_node *slot[4];
+static unsigned key_of(const char *name)
+{
+    V_ASSERT(name[0] == 'm' && name[1] >= '0' && name[1] < '0' + MODS && name[2] == '\0', "harness: module names are m0..m3");
+    return (unsigned)(name[1] - '0');
+}
+static void relink(struct set *set)
+{
+    unsigned i; struct set_node *prev = NULL;
+    set->root = NULL; set->count = 0;
+    for (i = 0; i < MODS; i++) if (slot[i]) {
+        slot[i]->l = slot[i]->r = NULL; slot[i]->prev = prev; slot[i]->next = NULL;
+        if (prev) prev->next = slot[i]; else set->root = slot[i];
+        prev = slot[i]; set->count++;
+    }
+}
+struct set_node *set_first(struct set *set) { return set->root; }
+void *set_find(struct set *set, const void *datum)
+{
+    unsigned k;
+    if (!set || !set->root || !datum) return NULL;
+    k = key_of(*(char *const *)datum);
+    return slot[k] ? set_node_data(slot[k]) : NULL;
+}
+static void dispose(struct set *set, struct set_node *n)
+{
+    if (set->cleanup) { V_ASSERT(set->cleanup == module_cleanup, "harness: the module table's disposal callback"); module_cleanup(set_node_data(n)); }
+    free(n);
+}
+void set_insert(struct set *set, struct set_node *node)
+{
+    unsigned k = key_of(((struct module *)set_node_data(node))->name);
+    struct set_node *old = slot[k];
+    slot[k] = node; relink(set);
+    if (old) dispose(set, old);
+}
+int set_remove(struct set *set, void *datum, int no_dispose)
+{
+    unsigned k; struct set_node *n;
+    if (!set || !set->root) return 0;
+    k = key_of(((struct module *)datum)->name);
+    n = slot[k];
+    if (!n) return 0;
+    slot[k] = NULL; relink(set);
+    if (!no_dispose) dispose(set, n);
+    return 1;
+}
+void set_clear(struct set *set, int no_dispose)
+{
+    unsigned i;
+    for (i = 0; i < MODS; i++) if (slot[i]) { struct set_node *n = slot[i]; slot[i] = NULL; if (!no_dispose) dispose(set, n); }
+    relink(set);
+}
+int set_compare_charp(const void *a_, const void *b_) { char *const *a = a_, *const *b = b_; return strcasecmp(*a, *b); }
+
 #define NLIST 2
 
 /* ------------------------------------------------------------------ symbolic inputs */
